@@ -38,8 +38,13 @@ def run(tier, seed):
     rng = random.Random(seed * 31 + 15)
     progs = []
     while len(progs) < n:
-        p = g.program({"requests": g.rng.random() < 0.5, "state_rates": False, "nsteps": g.rng.choice([2, 3]),
-                       "nstrat": g.rng.choice([0, 1, 2, 2, 3]), "p_post": 0.0, "h": g.rng.choice(["1/4", "1/2", "1/8"])})
+        if len(progs) % 4 == 3:
+            # several stratifications with mixing matrices (of different sizes): category order vs Kronecker order
+            p = g.program({"requests": False, "state_rates": False, "nsteps": 2, "nonlinear": True, "p_mix": 1.0,
+                           "nstrat": g.rng.choice([2, 3]), "p_post": 0.0, "h": g.rng.choice(["1/4", "1/2"])})
+        else:
+            p = g.program({"requests": g.rng.random() < 0.5, "state_rates": False, "nsteps": g.rng.choice([2, 3]),
+                           "nstrat": g.rng.choice([0, 1, 2, 2, 3]), "p_post": 0.0, "h": g.rng.choice(["1/4", "1/2", "1/8"])})
         if any(o["op"] in ("rebalance", "arraypop", "cv") for o in p["ops"]) or \
                 any(o["op"] == "req" and o["req"]["type"] == "cv" for o in p["ops"]):
             continue
